@@ -1,22 +1,27 @@
-#!/bin/sh
-# usage: tools/confirm_seed.sh <worktree> <name>   — confirms a seeded change: builds, existing tests pass, demo fails with / passes without the change;
-# then stores it under /verif/seeded/<name>/ (patch.diff, demo/, meta.json, confirm.log)
-WT="$1"; NAME="$2"
+#!/bin/bash
+# usage: tools/confirm_seed.sh <agent-worktree-or-"-"> <name>
+# stores the agent's seed under /verif/seeded/<name>/ (patch.diff, demo/, meta.json) and confirms it in a FRESH scratch worktree:
+# builds, existing tests pass with the change, demo fails with / passes without the change. Writes confirm.log.
+SRC="$1"; NAME="$2"
 export PATH=/root/go/pkg/mod/golang.org/toolchain@v0.0.1-go1.24.0.linux-amd64/bin:$PATH GOTOOLCHAIN=local GOFLAGS=-mod=mod GOPROXY=off
 OUT=/verif/seeded/$NAME; mkdir -p $OUT; LOG=$OUT/confirm.log; : > $LOG
-cd "$WT" || exit 2
-cp _seed/patch.diff $OUT/patch.diff; cp _seed/meta.json $OUT/meta.json; rm -rf $OUT/demo; cp -r _seed/demo $OUT/demo
-# make sure the tree is exactly HEAD + patch
-git stash -u -q 2>/dev/null; git checkout -q -- . ; git apply $OUT/patch.diff || { echo "patch does not apply" >> $LOG; exit 2; }
-echo "== build" >> $LOG; go build ./... >> $LOG 2>&1 || { echo "BUILD FAILED" >> $LOG; exit 1; }
+if [ "$SRC" != "-" ]; then
+  cp $SRC/_seed/patch.diff $OUT/patch.diff; cp $SRC/_seed/meta.json $OUT/meta.json; rm -rf $OUT/demo; cp -r $SRC/_seed/demo $OUT/demo
+fi
+WT=/tmp/wt_confirm_$NAME
+git -C /repo worktree remove --force $WT >/dev/null 2>&1
+git -C /repo worktree add --detach $WT HEAD >/dev/null 2>&1 || exit 2
+cd $WT
+git apply $OUT/patch.diff || { echo "patch does not apply" >> $LOG; git -C /repo worktree remove --force $WT; exit 2; }
+echo "== build" >> $LOG; go build ./... >> $LOG 2>&1 || { echo "BUILD FAILED" >> $LOG; }
 echo "== existing tests with the change" >> $LOG
 go test -vet=off -count=1 ./... > /tmp/confirm_$NAME.test 2>&1; RC=$?
 grep -v "^ok\|no test files" /tmp/confirm_$NAME.test | head -30 >> $LOG; echo "go test exit=$RC" >> $LOG
 echo "== demo with the change (must fail)" >> $LOG
-babash $OUT/demo/run.sh "$WT" > /tmp/confirm_$NAME.demo1 2>&1; D1=$?; tail -n 8 /tmp/confirm_$NAME.demo1 >> $LOG; echo "demo exit=$D1" >> $LOG
-git checkout -q -- . 
+bash $OUT/demo/run.sh "$WT" > /tmp/confirm_$NAME.demo1 2>&1; D1=$?; tail -n 8 /tmp/confirm_$NAME.demo1 >> $LOG; echo "demo exit=$D1" >> $LOG
+git checkout -q -- . ; git clean -fdq
 echo "== demo on the original (must pass)" >> $LOG
-babash $OUT/demo/run.sh "$WT" > /tmp/confirm_$NAME.demo0 2>&1; D0=$?; tail -n 4 /tmp/confirm_$NAME.demo0 >> $LOG; echo "demo exit=$D0" >> $LOG
-git apply $OUT/patch.diff
+bash $OUT/demo/run.sh "$WT" > /tmp/confirm_$NAME.demo0 2>&1; D0=$?; tail -n 4 /tmp/confirm_$NAME.demo0 >> $LOG; echo "demo exit=$D0" >> $LOG
 if [ $RC -eq 0 ] && [ $D1 -ne 0 ] && [ $D0 -eq 0 ]; then echo "CONFIRMED" >> $LOG; else echo "NOT CONFIRMED" >> $LOG; fi
-tail -n 1 $LOG
+cd /; git -C /repo worktree remove --force $WT >/dev/null 2>&1
+echo "$NAME $(tail -n 1 $LOG)"
